@@ -40,6 +40,7 @@ let sret = function
   | RTok (Some k) -> string_of_int (iz k)
   | RNoSuch -> "nosuch"
   | RGone -> "gone"
+  | RUndef -> "UNDEF-OUT-OF-MODEL"   (* caller error the model makes no prediction for: never equals a library line *)
   | RFault -> "FAULT"
 let serr = function ENone -> "-" | EINVAL -> "EINVAL" | ENOENT -> "ENOENT" | EDOM -> "EDOM" | ENOMEM -> "ENOMEM"
 let stok = function None -> "-" | Some k -> string_of_int (iz k)
